@@ -4,8 +4,8 @@ from . import _hist
 
 LEVEL = "exploration"
 SHARDS = {"quick": 8, "thorough": 16}
-BUDGET = {"quick": 18, "thorough": 200}
-EXHAUSTIVE = {"quick": False, "thorough": False}
+BUDGET = {"quick": 18, "thorough": 280}
+EXHAUSTIVE = {"quick": False, "thorough": True}
 RULE = ("histories of add_interaction/add_interactions_from/add_path/add_star/add_cycle (method and dn. forms) "
         "run in lock-step with the reference model; after every call the outcome (accepted / ValueError / "
         "NetworkXError, nothing else) and has_interaction(u,v[,t]) for all pairs over the known nodes, both "
@@ -53,7 +53,8 @@ def run(ctx, dn):
         _hist.random_histories(ctx, dn, battery, until=3, clears=True)
         _hist.stress(ctx, dn, battery, 1500, every=100)
     else:
-        _hist.exhaustive(ctx, dn, battery, 3, two_pairs_len=3)
+        # every history of length <= 4 over one pair (2 x 2 625 640 histories over the 16 shards), then two pairs
+        _hist.exhaustive(ctx, dn, battery, 4, two_pairs_len=3)
         _hist.second_life(ctx, dn, battery, 60)
         _hist.long_timelines(ctx, dn, battery, 40)
         _hist.random_histories(ctx, dn, battery, until=25, clears=True)
